@@ -25,7 +25,7 @@ def OpsOk (c : SpecBundle) : List SpecOp → Prop
   | .setConfig c' :: ops => BundleWF c' ∧ OpsOk c' ops
 
 theorem reopen_wf (fs : FS) (c : SpecBundle) (h : SysWF c.b.cfg c.asts) : SysWF (reopen fs c.b) c.asts :=
-  { valid := h.valid, cc := h.cc, us := h.us, dcp := h.dcp, mdc := h.mdc,
+  { valid := h.valid, cc := h.cc, us := h.us, dcp := h.dcp, mdc := h.mdc, mdcE := h.mdcE,
     printed := fun a ha => h.printed a ha, wf := fun a ha => h.wf a ha }
 
 theorem reopen_copies (fs : FS) (b : Bundle) (a : Name) (r : SysRecord) :
